@@ -17,7 +17,9 @@ POOLS = {
     "collide": ["collision_0001.dat", "collision_0002.dat", "collision_0003.dat", "collision_0004.dat",
                 "collision_0005.dat", "collision_0006.dat", "collision_0007.dat", "collision_0008.dat",
                 "collision_0009.dat", "collision_0010.dat", "collision_0011.dat"],
-    "unicode": ["ÄÖÜ.txt", "résumé.doc", "файл.txt", "日本語ファイル.txt", "emoji😀.txt", "Ελληνικά"],
+    "unicode": ["ÄÖÜ.txt", "résumé.doc", "файл.txt", "日本語ファイル.txt", "emoji😀.txt", "Ελληνικά",
+                # characters outside the BMP (two UTF-16 units): 13 / 26 characters but 14 / 27 units, and 12 characters but 13 units
+                "trip-\U0001F30D-01.jpg", "holiday picture \U0001F30D 2024.tar", "vacation-\U0001F30D-1"],
     "dots": [".hidden", "a.b.c.d", "two..dots", "tail.dot.x", " lead space".strip() + " in name"],
 }
 
